@@ -3,9 +3,16 @@ package main
 import (
 	"go/ast"
 	"go/token"
+	"go/types"
 	"strings"
 )
 
+// R23d is phrased over resolved facts: the switch is recognised by its case
+// constants (the package-level fpc* constants, through go/types), the
+// accumulation statement by the struct field it assigns (a field of
+// lang.MurexFuncParam appended to itself), the appended text by its constant
+// value or by its expression up to the spelling of a rune→string conversion.
+// Names of locals (`context`, `mfp`, `counter`) play no role.
 func init() {
 	extend("C23", func(c *Ctx) {
 		c.Rule("R23d", "signature parser state machine: inside ParseMxFunctionParameters text read in a context is accumulated into that context's own field — every `mfp[counter].F += …` under `case fpcNameRead` has F=Name, fpcTypeRead→DataType, fpcDescRead→Description, fpcDefaultRead→Default (a case list mixing two read contexts cannot satisfy both); and within one switch the Description and Default arms append the same text")
@@ -15,54 +22,115 @@ func init() {
 		}
 		info := pk.TypesInfo
 		want := map[string]string{"fpcNameRead": "Name", "fpcTypeRead": "DataType", "fpcDescRead": "Description", "fpcDefaultRead": "Default"}
+		// ctxConst: e names one of the package-level context constants
+		ctxConst := func(e ast.Expr) (string, bool) {
+			id, ok := unparen(e).(*ast.Ident)
+			if !ok {
+				return "", false
+			}
+			k, ok := info.ObjectOf(id).(*types.Const)
+			if !ok || k.Pkg() == nil || k.Pkg().Path() != mx("lang") || k.Parent() != k.Pkg().Scope() {
+				return "", false
+			}
+			return k.Name(), true
+		}
+		// accumulation: `X.F += e` or `X.F = X.F + e` with F a field of MurexFuncParam
+		accum := func(st ast.Stmt) (field string, rhs ast.Expr, ok bool) {
+			as, isAs := st.(*ast.AssignStmt)
+			if !isAs || len(as.Lhs) != 1 || len(as.Rhs) != 1 {
+				return "", nil, false
+			}
+			v, owner := fieldOf(info, as.Lhs[0])
+			if v == nil || owner != c23FuncParamT {
+				return "", nil, false
+			}
+			switch as.Tok {
+			case token.ADD_ASSIGN:
+				return v.Name(), as.Rhs[0], true
+			case token.ASSIGN:
+				if be, isBin := unparen(as.Rhs[0]).(*ast.BinaryExpr); isBin && be.Op == token.ADD && c.sameExpr(unparen(be.X), unparen(as.Lhs[0])) {
+					return v.Name(), be.Y, true
+				}
+			}
+			return "", nil, false
+		}
+		// appended text, normalised: constants by value; string([]rune{x}) ≡ string(x)
+		var norm func(e ast.Expr) string
+		norm = func(e ast.Expr) string {
+			e = unparen(e)
+			if s, ok := constString(info, e); ok {
+				return "const:" + s
+			}
+			if call, ok := e.(*ast.CallExpr); ok && len(call.Args) == 1 {
+				if tv, isT := info.Types[call.Fun]; isT && tv.IsType() {
+					if b, isB := tv.Type.Underlying().(*types.Basic); isB && b.Kind() == types.String {
+						arg := unparen(call.Args[0])
+						if cl, isCL := arg.(*ast.CompositeLit); isCL && len(cl.Elts) == 1 {
+							if sl, isSl := info.TypeOf(cl).Underlying().(*types.Slice); isSl {
+								if eb, isEB := sl.Elem().Underlying().(*types.Basic); isEB && eb.Kind() == types.Int32 {
+									arg = unparen(cl.Elts[0])
+								}
+							}
+						}
+						return "string(" + c.src(arg) + ")"
+					}
+				}
+			}
+			return c.src(e)
+		}
 		n, nPairs := 0, 0
 		ast.Inspect(fd.Body, func(nd ast.Node) bool {
 			sw, ok := nd.(*ast.SwitchStmt)
 			if !ok || sw.Tag == nil {
 				return true
 			}
-			if id, ok := unparen(sw.Tag).(*ast.Ident); !ok || id.Name != "context" {
+			// a switch over the parser context: some case names a context constant
+			isCtx := false
+			for _, s := range sw.Body.List {
+				for _, e := range s.(*ast.CaseClause).List {
+					if _, ok := ctxConst(e); ok {
+						isCtx = true
+					}
+				}
+			}
+			if !isCtx {
 				return true
 			}
-			appended := map[string]string{} // context -> appended text (source) in this switch
+			appended := map[string]string{} // context -> appended text (normalised) in this switch
+			shown := map[string]string{}
 			for _, s := range sw.Body.List {
 				cc := s.(*ast.CaseClause)
 				var ctxs []string
 				for _, e := range cc.List {
-					if id, ok := unparen(e).(*ast.Ident); ok {
-						ctxs = append(ctxs, id.Name)
+					if name, ok := ctxConst(e); ok {
+						ctxs = append(ctxs, name)
 					}
 				}
 				for _, st := range cc.Body {
-					as, ok := st.(*ast.AssignStmt)
-					if !ok || as.Tok != token.ADD_ASSIGN || len(as.Lhs) != 1 {
+					field, rhs, ok := accum(st)
+					if !ok {
 						continue
 					}
-					se, ok := as.Lhs[0].(*ast.SelectorExpr)
-					if !ok || !strings.HasPrefix(c.src(se.X), "mfp[") {
-						continue
-					}
-					field := se.Sel.Name
 					for _, ctx := range ctxs {
 						w, isRead := want[ctx]
 						if !isRead {
 							continue
 						}
 						n++
-						c.Check(w == field, "R23d", "accumulate:"+ctx+"→"+field+"#"+itoa(n), as.Pos(), "in context %s the text is appended to .%s (that context's field is .%s): otherwise characters of a %s end up in another field of the signature", ctx, field, w, strings.TrimSuffix(strings.TrimPrefix(ctx, "fpc"), "Read"))
-						appended[ctx] = c.src(as.Rhs[0])
+						c.Check(w == field, "R23d", "accumulate:"+ctx+"→"+field+"#"+itoa(n), st.Pos(), "in context %s the text is appended to .%s (that context's field is .%s): otherwise characters of a %s end up in another field of the signature", ctx, field, w, strings.TrimSuffix(strings.TrimPrefix(ctx, "fpc"), "Read"))
+						appended[ctx] = norm(rhs)
+						shown[ctx] = c.src(rhs)
 					}
 				}
 			}
 			if d, ok1 := appended["fpcDescRead"]; ok1 {
 				if f, ok2 := appended["fpcDefaultRead"]; ok2 {
 					nPairs++
-					c.Check(d == f, "R23d", "siblings#"+itoa(nPairs), sw.Pos(), "the Description and Default arms of this switch append the same text (%s vs %s)", d, f)
+					c.Check(d == f, "R23d", "siblings#"+itoa(nPairs), sw.Pos(), "the Description and Default arms of this switch append the same text (%s vs %s)", shown["fpcDescRead"], shown["fpcDefaultRead"])
 				}
 			}
 			return true
 		})
-		_ = info
 		c.MinCount("R23d", "context-accumulation statements", n, 18)
 		c.MinCount("R23d", "switches with both free-text arms", nPairs, 5)
 	})
